@@ -1113,6 +1113,15 @@ namespace bloch::runtime {
                     rc->destructorDecl = dtor;
                 }
             }
+            // The vtable stores addresses of bucket elements; a bucket reallocates while
+            // further overloads of the same name are appended, so (re)take the addresses now that
+            // the class's method buckets are complete.
+            for (auto& bucket : rc->methods) {
+                for (auto& m : bucket.second) {
+                    if (m.isVirtual || m.isOverride)
+                        rc->vtable[m.signature] = &m;
+                }
+            }
             if (rc->staticStorage.size() < rc->staticFields.size())
                 rc->staticStorage.resize(rc->staticFields.size());
         };
@@ -1236,6 +1245,13 @@ namespace bloch::runtime {
             } else if (auto dtor = dynamic_cast<DestructorDeclaration*>(member.get())) {
                 rc->hasDestructor = true;
                 rc->destructorDecl = dtor;
+            }
+        }
+        // See buildClassTable: take vtable addresses only once the buckets are complete.
+        for (auto& bucket : rc->methods) {
+            for (auto& m : bucket.second) {
+                if (m.isVirtual || m.isOverride)
+                    rc->vtable[m.signature] = &m;
             }
         }
         if (rc->staticStorage.size() < rc->staticFields.size())
